@@ -1,14 +1,14 @@
 #!/bin/sh
 # usage: seedlaunch.sh <ID> <portbase> : prepares /tmp/seed-<ID> (worktree + PROPERTY.json + scratch dir) and prints the sub-agent prompt
-ID=$1; PORT=$2
+ID=$1; PORT=$2; PROP=${3:-$1}   # optional third argument: property id when <ID> is a second-round name such as C01b
 /verif/tools/seedwt.sh $ID >/dev/null || exit 2
 mkdir -p /tmp/seed-$ID-scratch/out; chmod 777 /tmp/seed-$ID-scratch
-python3 - "$ID" <<'PY'
+python3 - "$ID" "$PROP" <<'PY'
 import json,sys
-i=sys.argv[1]
+i,pid=sys.argv[1],sys.argv[2]
 for l in open('/verif/properties.jsonl'):
     p=json.loads(l)
-    if p['id']==i:
+    if p['id']==pid:
         json.dump(p,open('/tmp/seed-%s/PROPERTY.json'%i,'w'),indent=1)
 PY
 sed "s/@ID@/$ID/g" /verif/tools/seed_prompt.txt
